@@ -407,13 +407,24 @@ func (e *Env) Cycle(reps []Replica) CycleObs {
 			errText = err.Error()
 		}
 	}()
+	if guardTimer == nil {
+		guardTimer = time.NewTimer(CycleGuard)
+	} else {
+		guardTimer.Reset(CycleGuard)
+	}
 	select {
 	case <-done:
+		if !guardTimer.Stop() {
+			select {
+			case <-guardTimer.C:
+			default:
+			}
+		}
 		if harness != nil {
 			panic(harness)
 		}
 		co.Panic, co.Err = panicked, errText
-	case <-time.After(CycleGuard):
+	case <-guardTimer.C:
 		co.Panic = fmt.Sprintf("the cycle did not return within %v (it is blocked)", CycleGuard)
 		Blocked = true
 	}
@@ -423,6 +434,9 @@ func (e *Env) Cycle(reps []Replica) CycleObs {
 // CycleGuard is how long a single coordination cycle over scripted, immediately answering shards may take before
 // it is taken for blocked (it takes well under a millisecond).
 var CycleGuard = 60 * time.Second
+
+// guardTimer is re-used from cycle to cycle (millions of cycles per run).
+var guardTimer *time.Timer
 
 // Blocked is set once a cycle was given up: the process then has a goroutine stuck in the code under test and
 // every later result of it is suspect; runH1 stops at the first such finding.
